@@ -24,8 +24,11 @@ def outcome(fn, *a, **kw):
         return ('raise', type(e).__name__, str(e)[:120])
 
 
-def key_from_secret(curve, secret):
+def key_from_secret(curve, secret, long_form=False):
+    """long_form (Ed25519 only): the 64-byte secret key seed || public key, as carried by the 98-character edsk encoding"""
     from pytezos.crypto.key import Key
+    if long_form and curve == 'ed':
+        return Key.from_secret_exponent(secret + cr.public_key('ed', secret), curve=cr.PY_CURVE[curve])
     return Key.from_secret_exponent(secret, curve=cr.PY_CURVE[curve])
 
 
